@@ -57,6 +57,11 @@ def execute(prop, tier, plan, seed, wdir):
         batches.append((b["profile"], scen, b))
     for f in plan.get("fixed", {}).get(tier, []):
         batches.append((os.path.basename(f).replace(".ndjson", ""), f"{VERIF}/{f}", {"fixed": True}))
+    for g in plan.get("pygen", {}).get(tier, []):
+        import pygen
+        scen = f"{wdir}/scen-{g['name']}.ndjson"
+        getattr(pygen, g["fn"])(scen, seed + g.get("seed_offset", 0), g["count"])
+        batches.append((g["name"], scen, {"runner": g.get("runner", "run"), "trace_spec": g.get("trace_spec")}))
     for gen in plan.get("b1", {}).get(tier, []):
         from b1 import export_schedules
         scen = f"{wdir}/scen-b1-{gen['cfg']}.ndjson"
@@ -65,11 +70,11 @@ def execute(prop, tier, plan, seed, wdir):
         if info.get("error"):
             res["tool_errors"].append(info["error"])
             continue
-        batches.append((f"b1-{gen['cfg']}", scen, {"b1": True}))
+        batches.append((f"b1-{gen['cfg']}", scen, {"b1": True, "runner": "ackrun" if gen["kind"] == "ack" else "run", "trace_spec": gen.get("trace_spec")}))
 
     for name, scen, b in batches:
         trace = f"{wdir}/trace-{name}.ndjson"
-        rc, summary, hang, out = harness_run(scen, trace, b.get("run_timeout", 900))
+        rc, summary, hang, out = harness_run(scen, trace, b.get("run_timeout", 900), b.get("runner", "run"))
         batch = {"batch": name, "runs": len(summary), "steps": sum(s["steps"] for s in summary), "stuck": sum(1 for s in summary if s["stuck"])}
         if hang is not None:
             batch["hang"] = hang["scenario"]["name"]
@@ -82,7 +87,7 @@ def execute(prop, tier, plan, seed, wdir):
         elif rc != 0:
             res["tool_errors"].append(f"harness run failed for batch {name} (rc={rc}): {out[-400:]}")
             continue
-        trc, rep, tout, twall = trace_check(plan.get("trace_spec", "TraceCacheD"), trace, f"{wdir}/tc-{name}", b.get("trace_timeout", 900))
+        trc, rep, tout, twall = trace_check(b.get("trace_spec") or plan.get("trace_spec", "TraceCacheD"), trace, f"{wdir}/tc-{name}", b.get("trace_timeout", 900))
         batch["trace_check_s"] = round(twall, 1)
         if rep is None:
             res["tool_errors"].append(f"TLC did not consume the trace of batch {name}: {tout[-600:]}")
@@ -98,7 +103,7 @@ def execute(prop, tier, plan, seed, wdir):
         if len(cov["samples"]) < 4:
             sc = scenario_of_run(scen, 1)
             if sc:
-                cov["samples"].append(brief_scenario(sc))
+                cov["samples"].append(brief_scenario(sc) if "cfg" in sc else sc)
         for v in rep["verdicts"]:
             if v["prop"] != prop:
                 key = f"{v['prop']}:{v['kind']}:{v['finding']}"
